@@ -173,8 +173,60 @@ def cli(task):
     return {"stdout": buf.getvalue(), "seen": seen}
 
 
+def _qe(p):
+    """probability -> (q, e): q = round(p * 10^(9+e)), 10^8 <= q < 10^9 (q = e = 0 for p = 0)"""
+    p = float(p)
+    if not (p > 0.0) or math.isnan(p):
+        return (0, 0) if p == 0.0 else (-1, 0)
+    l10 = math.log10(min(p, 2.0))
+    e = max(0, int(math.floor(-l10)))
+    q = int(round(10.0 ** (l10 + 9 + e)))
+    if q >= 10**9 and e > 0:
+        e -= 1
+        q = int(round(10.0 ** (l10 + 9 + e)))
+    if q < 10**8 and l10 < 0:
+        e += 1
+        q = int(round(10.0 ** (l10 + 9 + e)))
+    return min(q, 2 * 10**9 - 1), e
+
+
+def wide(inst):
+    """both call-exact paths on a locus with tens of thousands of genotypes and reads that carry no information
+    (every cell a gap): events for TraceWidePosterior.tla"""
+    P, K, seed = inst["P"], inst["K"], inst["seed"]
+    rnd = np.random.RandomState(seed)
+    N = max(1, int(math.ceil(math.log2(max(K, 2)))))
+    H = np.array([[(k >> j) & 1 for j in range(N)] for k in range(K)], dtype=np.int8)
+    reads = np.full((inst["R"], N, 2), np.nan, dtype=np.float64)
+    counts = np.array([1 + (r % 3) for r in range(inst["R"])], dtype=np.int64)
+    w = np.array(inst["n"], dtype=np.float64)
+    freqs = None if inst.get("flat_none") else w / w.sum()
+    F = inst["fn"] / inst["fd"]
+    ev = [{"op": "begin", "P": P, "K": K, "fn": inst["fn"], "fd": inst["fd"], "n": inst["n"], "m": int(sum(inst["n"]))}]
+    llks = E.genotype_likelihoods(reads, P, H, read_counts=counts)
+    probs = np.asarray(E.genotype_posteriors(llks, P, K, inbreeding=F, frequencies=freqs), dtype=np.float64)
+    n = len(probs)
+    top = int(np.argmax(probs))
+    pick = sorted({0, 1, n - 1, n - 2, n // 2, top, 65535 % n, 65536 % n, 65537 % n} | {int(x) for x in rnd.randint(0, n, size=inst["n_pick"])})
+    for i in pick:
+        g = [int(a) for a in J.index_as_genotype_alleles(i, P)]
+        q, e = _qe(probs[i])
+        ev.append({"op": "gp", "path": "array", "i": i, "g": g, "q": q, "e": e})
+    ev.append({"op": "sum", "path": "array", "q9": int(min(round(float(np.nansum(probs)) * 1e9), 2 * 10**9)), "cnt": int(n)})
+    gt = [int(a) for a in J.index_as_genotype_alleles(top, P)]
+    q, e = _qe(probs[top])
+    ev.append({"op": "mode", "path": "array", "g": gt, "q": q, "e": e})
+    res = E.posterior_mode(reads, P, H, read_counts=counts, inbreeding=F, frequencies=freqs, return_support_prob=True,
+                           return_posterior_frequencies=True, return_posterior_occurrence=True)
+    q, e = _qe(float(res[2]))
+    ev.append({"op": "mode", "path": "stream", "g": sorted(int(a) for a in res[0]), "q": q, "e": e})
+    return ev
+
+
 def run(task):
     op = task["op"]
+    if op == "wide":
+        return [wide(i) for i in task["insts"]]
     if op == "api":
         flag_sets = list(itertools.product([False, True], repeat=3)) if task.get("all_flags", True) else [
             (False, False, False), (True, True, True)]
